@@ -83,10 +83,7 @@ def run(c):
             raise vf.FrameworkError("fault-free run of %s rejected: %s" % (s["sc"], e))
         seen[key] = seen.get(key, 0) + 1
         if seen[key] <= 2:
-            r3, d3 = c.run_worker("faults", [s], parallel=1, env=env)
-            ev3 = [{k: v for k, v in x.items() if k not in ("sc", "panic", "ev", "ncalls")} for x in r3.get(s["sc"], [])]
-            if not c.validate_traces("DepFaultsTrace", "DepFaultsTrace.cfg", ev3):
-                raise vf.FrameworkError("rejection not reproduced")
+            c.reproduce_trace("faults", s["sc"], "DepFaultsTrace", "DepFaultsTrace.cfg", ("sc", "panic", "ev", "ncalls"), env=env)
         c.report(key, "%s with %s at dependency call %d (%s): result %s, calls after the fault %s" % (s["api"], s["kind"], s["k"], fd, e.get("res"), after),
                  dict({"scenario": s, "deps": deps, "end": e}, **c.rp("faults", s, validate=("DepFaultsTrace", "DepFaultsTrace.cfg"), strip=("sc", "panic", "ev", "ncalls"))))
     c.cov["evaluations"] = len(allsc)
